@@ -233,6 +233,14 @@ def analyze(program, modules=None):
                         # Class.attr = v on a class of this module
                         if isinstance(sub, ast.Attribute) and isinstance(sub.value, ast.Name) and sub.value.id in mf.classes and sub.value.id not in bound:
                             found['class_attr'].append((n.lineno, 'stores to class attribute %s.%s' % (sub.value.id, sub.attr)))
+                        # self.X[...] = v / self.X.y = v where X is a class-body container never rebound per instance
+                        inner = sub.value
+                        while isinstance(inner, (ast.Subscript, ast.Attribute)) and not (isinstance(inner, ast.Attribute) and isinstance(inner.value, ast.Name)):
+                            inner = inner.value
+                        if isinstance(inner, ast.Attribute) and isinstance(inner.value, ast.Name) and inner.value.id in ('self', 'cls'):
+                            for cname, attrs in mf.classes.items():
+                                if inner.attr in attrs and q.startswith('%s.%s.' % (mi.name, cname)) and not _instance_rebinds(program, mi.name, cname, inner.attr):
+                                    found['class_attr'].append((n.lineno, 'stores into class-level container %s.%s shared by all instances' % (cname, inner.attr)))
             if isinstance(n, ast.Call):
                 f = n.func
                 # mutating method called directly on a module-level object / mutable-default parameter / class attribute
